@@ -614,6 +614,10 @@ func runC19(c *Ctx) {
 	c19Graphs = map[*FuncInfo]*FG{}
 	c19C = c
 	c19Ctx, c19Bind = nil, nil
+	// local closures that only name a block of statements are spliced into their call sites (c19norm.go)
+	if os.Getenv("VX_NO_NORMALISE") == "" {
+		c19NormaliseClosures(c)
+	}
 	c.Clauses = []string{
 		"C19.a widgets/list: every store to List.index/offset keeps it >= 0 and every store to index keeps it <= max(0,len(items)-1) (intervals, helper summaries, one guard used once); a store to items is paired with a clamping store to index; every access to items stays within the slice",
 		"C19.e widgets/list: where items are accessed for drawing offset <= index < offset+height; item J is drawn on row J-offset; the highlighted item is the one at List.index",
